@@ -612,6 +612,85 @@ func init() {
 		}
 	}})
 
+	// ---- C01: outputs of a kind the transaction has no inputs of
+	registerRows("C01", probeRow{"B1-outputs-without-inputs", func(w *World, n *Node) {
+		sc := n.fork()
+		k := uint64(w.tape.Range(1, 5000))
+		if sc.v1ok() {
+			if e, ok := pickSC(w, sc.ownedSC(true, true)); ok {
+				if txn, ok := w.spendV1(sc.s, []types.SiacoinElement{e}, w.advAddr()); ok {
+					txn.SiafundOutputs = []types.SiafundOutput{{Value: k, Address: w.advAddr()}}
+					w.signAllV1(sc.s, &txn)
+					verr, ok := sc.offer([]types.Transaction{txn}, nil, offerOpt{})
+					w.expect("C01", "B1-v1-siafund-outputs-without-inputs", verr, ok, false, fmt.Sprintf("a v1 transaction that balances in siacoins and creates %d siafunds without spending any", k))
+				}
+			}
+			verr, ok := sc.offer([]types.Transaction{{SiacoinOutputs: []types.SiacoinOutput{{Value: types.Siacoins(uint32(k)), Address: w.advAddr()}}}}, nil, offerOpt{})
+			w.expect("C01", "B1-v1-siacoin-outputs-without-inputs", verr, ok, false, "a v1 transaction with a siacoin output and no input")
+		}
+		if sc.v2ok() {
+			if e, ok := pickSC(w, sc.ownedSC(false, true)); ok {
+				if txn, ok := w.spendV2(sc.s, []types.SiacoinElement{e}, w.advAddr()); ok {
+					txn.SiafundOutputs = []types.SiafundOutput{{Value: k, Address: w.advAddr()}}
+					if w.signAllV2(sc.s, &txn) {
+						verr, ok := sc.offer(nil, []types.V2Transaction{txn}, offerOpt{})
+						w.expect("C01", "B1-v2-siafund-outputs-without-inputs", verr, ok, false, fmt.Sprintf("a v2 transaction that balances in siacoins and creates %d siafunds without spending any", k))
+					}
+				}
+			}
+			verr, ok := sc.offer(nil, []types.V2Transaction{{SiacoinOutputs: []types.SiacoinOutput{{Value: types.Siacoins(uint32(k)), Address: w.advAddr()}}}}, offerOpt{})
+			w.expect("C01", "B1-v2-siacoin-outputs-without-inputs", verr, ok, false, "a v2 transaction with a siacoin output and no input")
+		}
+	}})
+
+	// ---- C02: the siacoin input that pays the fee of a storage-proof transaction is spent like any other
+	registerRows("C02", probeRow{"D2-v1-proof-transaction-fee-input", func(w *World, n *Node) {
+		sc := n.fork()
+		if !sc.v1ok() {
+			return
+		}
+		c := sc.pickLive(false, func(c *Contract) bool {
+			fc := sc.store.FC[c.id].FileContract
+			_, known := c.dataFor(fc.FileMerkleRoot, fc.Filesize)
+			return known && fc.Filesize > 0 && fc.WindowStart <= sc.child()+12 && fc.WindowEnd > sc.child() && fc.WindowEnd < w.net.HardforkV2.RequireHeight
+		})
+		if c == nil {
+			return
+		}
+		fc := sc.store.FC[c.id].FileContract
+		if at := max(fc.WindowStart, sc.child()); at >= fc.WindowEnd || !sc.advanceTo(at) || !sc.v1ok() {
+			return
+		}
+		data, _ := c.dataFor(fc.FileMerkleRoot, fc.Filesize)
+		sp, ok := w.storageProofV1(sc.s, sc.best, c.id, fc, data)
+		e, oke := pickSC(w, sc.ownedSC(true, true))
+		if !ok || !oke {
+			return
+		}
+		_, ai := w.ownerOf(e.SiacoinOutput.Address)
+		if ai == nil || ai.uc == nil {
+			return
+		}
+		t1 := types.Transaction{StorageProofs: []types.StorageProof{sp}, SiacoinInputs: []types.SiacoinInput{{ParentID: e.ID, UnlockConditions: *ai.uc}}, MinerFees: []types.Currency{e.SiacoinOutput.Value}}
+		w.signAllV1(sc.s, &t1)
+		verr, ok := sc.offer([]types.Transaction{t1}, nil, offerOpt{})
+		if verr != nil {
+			// (the era's leaf rule may refuse this particular proof; nothing to build on)
+			return
+		}
+		w.expect("C02", "D2-v1-proof-with-fee-control", verr, ok, true, "storage proof transaction paying its miner fee from a siacoin input")
+		t2, ok2 := w.spendV1(sc.s, []types.SiacoinElement{e}, w.advAddr())
+		if !ok2 {
+			return
+		}
+		verr, ok = sc.offer([]types.Transaction{t1, t2}, nil, offerOpt{})
+		w.expect("C02", "D2-v1-proof-fee-input-respent-in-block", verr, ok, false, fmt.Sprintf("output %v pays the fee of a storage-proof transaction and is spent again by the next transaction of the block", e.ID))
+		if sc.mine([]types.Transaction{t1}, nil) == nil && sc.v1ok() {
+			verr, ok = sc.offer([]types.Transaction{t2}, nil, offerOpt{})
+			w.expect("C02", "D2-v1-proof-fee-input-respent-next-block", verr, ok, false, fmt.Sprintf("output %v paid the fee of a storage-proof transaction in the previous block and is spent again", e.ID))
+		}
+	}})
+
 	// ---- C04: leaf-index bits above the tree, a chain index whose block ID is altered, a contract that never existed
 	registerRows("C04", probeRow{"M1-high-leaf-index-bits", func(w *World, n *Node) {
 		sc := n.fork()
